@@ -3,6 +3,7 @@ package main
 import (
 	"encoding/json"
 	"fmt"
+	"regexp"
 	"strings"
 
 	"verifharness/internal/proto"
@@ -10,10 +11,23 @@ import (
 
 // ---------- C06: round trip ----------
 
+var optionOfRe = regexp.MustCompile(`Option\[(\w+)\]`)
+
+// genericWrapsMarshaledStruct: the generated source holds, BY VALUE inside the generic optional type, a struct
+// that has a generated pointer-receiver MarshalJSON (the trigger of F-06g)
+func genericWrapsMarshaledStruct(src string) bool {
+	for _, m := range optionOfRe.FindAllStringSubmatch(src, -1) {
+		if strings.Contains(src, "func (v *"+m[1]+") MarshalJSON(") {
+			return true
+		}
+	}
+	return false
+}
+
 func c06One(c *Ctx, b *Batch, pkg string, cs respCase, respType string, ex *executor, js []byte) {
 	c.Res.Eval()
 	fail := func(class, what string, impl any) {
-		if cs.Cfg.Optional == "generic" && (class == "remarshal-lost-key" || class == "roundtrip-not-equal" || class == "remarshal-differs") {
+		if cs.Cfg.Optional == "generic" && (class == "remarshal-lost-key" || class == "roundtrip-not-equal") && genericWrapsMarshaledStruct(string(b.Pkgs[pkg].Src)) {
 			// a struct wrapped BY VALUE in the generic optional type is marshaled without its generated
 			// (pointer-receiver) MarshalJSON: keys of fields handled by generated marshalers are lost
 			class += ":generic-optional-wraps-struct-by-value"
@@ -142,7 +156,8 @@ func sameUpToNullLoss(a, b any, path string) string {
 		case nil:
 			return ""
 		case string:
-			if x == "" || strings.HasPrefix(x, "0001-01-01") {
+			// "" and the zero values of the bound struct types (time.Time, sup.Date)
+			if x == "" || strings.HasPrefix(x, "0001-01-01") || x == "0000-00-00" {
 				return ""
 			}
 		case json.Number:
